@@ -142,6 +142,14 @@ impl EdgeList {
                     }
                 }
             }
+            // the same with the operands of `==` the other way round (`Self::complete(..) == *self` is the same test)
+            assert forall|c: EdgeList| c.wf() && c.ord() == self.ord()
+                && (forall|a: int, b: int| #![trigger c.has(a, b)] c.has(a, b) == complete_arc(self.ord(), a, b))
+                implies #[trigger] vstd::std_specs::cmp::PartialEqSpec::eq_spec(&c, self) == all_pairs_arcs(*self) by {
+                lemma_edge_list_eq_spec(c, *self);
+                lemma_edge_list_eq_spec(*self, c);
+                assert(vstd::std_specs::cmp::PartialEqSpec::eq_spec(self, &c) == all_pairs_arcs(*self));
+            }
         }
     @*/
 }
